@@ -35,7 +35,7 @@ static void ver_parse(const char *s, ver_t *v)
         char *e;
         if (!isdigit((unsigned char)*s) || v->nnum >= 8) return;
         v->num[v->nnum++] = strtol(s, &e, 10);                             /* numbers are decimal, zero-padded or not: 08 is eight */
-        if (e - s > 6) return;
+        if (e - s > 9) return;
         s = e;
         if (*s == '.') { s++; continue; }
         break;
@@ -115,6 +115,7 @@ static void exec_c17(const plan_t *p)
             if (want != 99 && want != r1) sim_fail("MISMATCH(order)", "compare(\"%.40s\",\"%.40s\") returned %d, the stated ordering rules give %d", a, b, r1, want);
         }
         if (o->slen > 127 || o->tlen > 127) probe_hit("run_longer_than_127");
+        if (plan_get(p, "sweep", 0)) probe_hit("exhaustive_short_pair");
         sim_free(a); sim_free(b);
     }
     R.cur_op = NULL;
@@ -122,16 +123,18 @@ static void exec_c17(const plan_t *p)
 
 static size_t gen_version(rng_t *r, char *out, size_t max)
 {
-    static const char *words[] = { "snap", "pre", "alpha", "beta", "rc", "a", "b", "p", "final", "Alpha", "PRE", "xyz" };
+    static const char *words[] = { "snap", "pre", "alpha", "beta", "rc", "a", "b", "p", "final", "Alpha", "PRE", "xyz",
+                                   "prefix", "snapshot", "alphabet", "betas", "rcx", "sna", "alph", "r", "bet", "prerelease" };    /* words that merely begin like, or are cut short of, a pre-release word */
     size_t n = 0;
     int comps = rng_range(r, 1, 4);
     int pad = rng_chance(r, 1, 5);                     /* zero-padded components (dates, 1.010 vs 1.9) */
     for (int i = 0; i < comps; i++) {
-        unsigned v = rng_chance(r, 1, 3) ? rng_below(r, 3) : rng_chance(r, 1, 4) ? 7 + rng_below(r, 5) : rng_below(r, 100);
+        static const unsigned bigs[] = { 127, 128, 129, 255, 256, 300, 999, 1000, 32767, 32768, 65535, 65536, 99999, 20040131 };
+        unsigned v = rng_chance(r, 1, 3) ? rng_below(r, 3) : rng_chance(r, 1, 4) ? 7 + rng_below(r, 5) : rng_chance(r, 1, 6) ? bigs[rng_below(r, 14)] : rng_below(r, 100);
         n += (size_t)snprintf(out + n, max - n, pad && rng_chance(r, 1, 2) ? (rng_chance(r, 1, 2) ? "%s%02u" : "%s%03u") : "%s%u", i ? "." : "", v);
     }
     if (rng_chance(r, 1, 2)) {
-        n += (size_t)snprintf(out + n, max - n, "%s", words[rng_below(r, 12)]);
+        n += (size_t)snprintf(out + n, max - n, "%s", words[rng_below(r, 22)]);
         if (rng_chance(r, 2, 3)) n += (size_t)snprintf(out + n, max - n, pad && rng_chance(r, 1, 3) ? "%02u" : "%u", rng_below(r, 12));
     }
     return n;
@@ -148,17 +151,52 @@ static size_t gen_wild(rng_t *r, char *out, size_t max)
     out[n] = 0;
     return n;
 }
+/* bounded exhaustive part: every pair of strings of up to 3 characters over a small alphabet that has letters of the
+   pre-release words, digits and punctuation -- 585 strings, 342225 pairs, 20 pairs per plan for the first 17112 seeds */
+#define SW_ALPHA "apre10.-"
+#define SW_NSTR 585
+static size_t sweep_str(int idx, char *out)
+{
+    size_t n = 0;
+    if (idx == 0) { out[0] = 0; return 0; }
+    idx--;
+    if (idx < 8) n = 1; else if (idx < 8 + 64) { n = 2; idx -= 8; } else { n = 3; idx -= 72; }
+    for (size_t i = 0; i < n; i++) { out[n - 1 - i] = SW_ALPHA[idx % 8]; idx /= 8; }
+    out[n] = 0;
+    return n;
+}
+static int c17_sweep_plans(void) { return (SW_NSTR * SW_NSTR + 19) / 20; }
+
 static void gen_c17(plan_t *p, rng_t *r)
 {
     static char a[8000], b[8000];
     static const int paints[] = { 0x00, 0xFF, 'a', 'Z', 0xA5, '1', '.' };
     int nops = rng_range(r, 1, 20 * sim_tier_scale());
     plan_knob(p, "alloc.fill", rng_range(r, 0, 4));
+    if ((int)(p->seed % 1000000) < c17_sweep_plans()) {
+        int first = (int)(p->seed % 1000000) * 20;
+        plan_knob(p, "sweep", 1);
+        for (int q = first; q < first + 20 && q < SW_NSTR * SW_NSTR; q++) {
+            size_t na = sweep_str(q / SW_NSTR, a), nb = sweep_str(q % SW_NSTR, b);
+            op_t *o = plan_op(p, 0, "cmp", 2, 0L, 255L);
+            op_str(o, a, na); op_str2(o, b, nb);
+        }
+        return;
+    }
     for (int i = 0; i < nops; i++) {
         size_t na, nb;
-        int mode = (int)rng_below(r, 10);
+        int mode = (int)rng_below(r, 11);
         op_t *o;
-        if (mode < 5) { na = gen_version(r, a, sizeof(a)); nb = gen_version(r, b, sizeof(b)); }
+        if (mode == 10) {
+            /* one string is the other plus punctuation, a word and a number, each optional */
+            static const char *ws[] = { "pre", "snap", "alpha", "beta", "rc", "prefix", "x", "final", "" };
+            na = rng_chance(r, 1, 2) ? gen_version(r, a, sizeof(a)) : gen_wild(r, a, sizeof(a));
+            memcpy(b, a, na + 1); nb = na;
+            if (rng_chance(r, 1, 2)) nb += (size_t)snprintf(b + nb, sizeof(b) - nb, "%c", ".-_+ ~"[rng_below(r, 6)]);
+            nb += (size_t)snprintf(b + nb, sizeof(b) - nb, "%s", ws[rng_below(r, 9)]);
+            if (rng_chance(r, 1, 2)) nb += (size_t)snprintf(b + nb, sizeof(b) - nb, "%u", rng_below(r, 20));
+            if (rng_chance(r, 1, 2)) { static char t[8000]; memcpy(t, a, na + 1); memcpy(a, b, nb + 1); memcpy(b, t, na + 1); { size_t x = na; na = nb; nb = x; } }
+        } else if (mode < 5) { na = gen_version(r, a, sizeof(a)); nb = gen_version(r, b, sizeof(b)); }
         else if (mode < 6) { na = gen_version(r, a, sizeof(a)); memcpy(b, a, na + 1); nb = na; if (rng_chance(r, 1, 2)) nb += (size_t)snprintf(b + nb, sizeof(b) - nb, rng_chance(r, 1, 2) ? ".%u" : "pre%u", rng_below(r, 9)); }
         else if (mode < 9) { na = gen_wild(r, a, sizeof(a)); nb = gen_wild(r, b, sizeof(b)); }
         else { na = gen_wild(r, a, sizeof(a)); memcpy(b, a, na + 1); nb = na; if (nb && rng_chance(r, 1, 2)) b[rng_below(r, (uint32_t)nb)] ^= 1; }
@@ -170,7 +208,7 @@ static void gen_c17(plan_t *p, rng_t *r)
 /* =====================================================================================================
  * C14
  * ===================================================================================================== */
-typedef struct { char proto[64], user[64], passwd[64], host[64], port[64], path[256], query[256]; int has[7]; } urlc_t;
+typedef struct { char proto[64], user[64], passwd[64], host[64], port[64], path[256], query[256]; int has[7]; int overflow; } urlc_t;
 enum { U_PROTO, U_USER, U_PASSWD, U_HOST, U_PORT, U_PATH, U_QUERY };
 
 /* reference splitter (DESIGN B.8), written from the accepted shape, not from url.c */
@@ -182,7 +220,7 @@ static void ref_split(const char *s, urlc_t *u)
     if (colon) {
         const char *x = s;
         while (x < colon && isalnum((unsigned char)*x)) x++;
-        if (x == colon) { n = (size_t)(colon - s); if (n < 64) { memcpy(u->proto, s, n); u->has[U_PROTO] = 1; } p = colon + 1; }
+        if (x == colon) { n = (size_t)(colon - s); if (n < 64) { memcpy(u->proto, s, n); u->has[U_PROTO] = 1; } else u->overflow = 1; p = colon + 1; }
     }
     if (p[0] == '/' && p[1] == '/') p += 2;
     rest = p;
@@ -190,8 +228,8 @@ static void ref_split(const char *s, urlc_t *u)
     if (pathp) {
         q = strchr(pathp, '?');
         n = q ? (size_t)(q - pathp) : strlen(pathp);
-        if (n < 256) { memcpy(u->path, pathp, n); u->has[U_PATH] = 1; }
-        if (q) { snprintf(u->query, sizeof(u->query), "%s", q + 1); u->has[U_QUERY] = 1; }
+        if (n < 256) { memcpy(u->path, pathp, n); u->has[U_PATH] = 1; } else u->overflow = 1;
+        if (q) { if (strlen(q + 1) >= sizeof(u->query)) u->overflow = 1; snprintf(u->query, sizeof(u->query), "%s", q + 1); u->has[U_QUERY] = 1; }
         authend = pathp;
     } else if ((q = strchr(rest, '?'))) {
         snprintf(u->query, sizeof(u->query), "%s", q + 1); u->has[U_QUERY] = 1;
@@ -200,15 +238,15 @@ static void ref_split(const char *s, urlc_t *u)
     at = memchr(rest, '@', (size_t)(authend - rest));
     if (at) {
         c = memchr(rest, ':', (size_t)(at - rest));
-        if (c) { n = (size_t)(c - rest); if (n < 64) { memcpy(u->user, rest, n); u->has[U_USER] = 1; } n = (size_t)(at - c - 1); if (n < 64) { memcpy(u->passwd, c + 1, n); u->has[U_PASSWD] = 1; } }
-        else { n = (size_t)(at - rest); if (n < 64) { memcpy(u->user, rest, n); u->has[U_USER] = 1; } }
+        if (c) { n = (size_t)(c - rest); if (n < 64) { memcpy(u->user, rest, n); u->has[U_USER] = 1; } else u->overflow = 1; n = (size_t)(at - c - 1); if (n < 64) { memcpy(u->passwd, c + 1, n); u->has[U_PASSWD] = 1; } else u->overflow = 1; }
+        else { n = (size_t)(at - rest); if (n < 64) { memcpy(u->user, rest, n); u->has[U_USER] = 1; } else u->overflow = 1; }
         rest = at + 1;
     }
     c = memchr(rest, ':', (size_t)(authend - rest));
     if (c) {
-        n = (size_t)(c - rest); if (n < 64) { memcpy(u->host, rest, n); u->has[U_HOST] = 1; }
-        n = (size_t)(authend - c - 1); if (n < 64) { memcpy(u->port, c + 1, n); u->has[U_PORT] = 1; }
-    } else if (rest != authend) { n = (size_t)(authend - rest); if (n < 64) { memcpy(u->host, rest, n); u->has[U_HOST] = 1; } }
+        n = (size_t)(c - rest); if (n < 64) { memcpy(u->host, rest, n); u->has[U_HOST] = 1; } else u->overflow = 1;
+        n = (size_t)(authend - c - 1); if (n < 64) { memcpy(u->port, c + 1, n); u->has[U_PORT] = 1; } else u->overflow = 1;
+    } else if (rest != authend) { n = (size_t)(authend - rest); if (n < 64) { memcpy(u->host, rest, n); u->has[U_HOST] = 1; } else u->overflow = 1; }
 }
 static void get_components(spif_url_t url, urlc_t *u, const char *when)
 {
@@ -390,9 +428,16 @@ static void exec_c14(const plan_t *p)
         if (strcmp(o->kind, "url") || !o->has_s) continue;
         txt = blockdup(o->s, o->slen);
         wellformed = url_wellformed(txt);
+        { urlc_t probe; ref_split(txt, &probe); if (probe.overflow) { wellformed = 0; probe_hit("component_beyond_model_size"); } }     /* longer than the model's fields: safety only */
         paint_stack((int)o->a[0], 4096);
-        u = spif_url_new_from_ptr((spif_charptr_t)txt);
-        if (!u) sim_fail("MISMATCH(constructor)", "spif_url_new_from_ptr returned NULL");
+        if (o->na > 3 && o->a[3] == 1) {
+            /* from a string object, which is gone before anything is read back */
+            spif_str_t so = spif_str_new_from_ptr((spif_charptr_t)txt);
+            u = spif_url_new_from_str(so);
+            spif_str_del(so);
+            probe_hit("constructed_from_str_object");
+        } else u = spif_url_new_from_ptr((spif_charptr_t)txt);
+        if (!u) sim_fail("MISMATCH(constructor)", "the URL constructor returned NULL");
         get_components(u, &got, "parse");
         ref_split(txt, &want);
         if (want.has[U_PROTO] && !want.has[U_PORT]) expect_port = service_port(want.proto, ns, portbuf, sizeof(portbuf));
@@ -450,14 +495,18 @@ static void gen_word(rng_t *r, char *out, int lo, int hi, const char *alpha)
 }
 static void gen_c14(plan_t *p, rng_t *r)
 {
-    static const char *protos[] = { "http", "ftp", "tcp", "udp", "ip", "dns", "odd", "unix", "mailto", "x9", "pop3", "file", "amanda", "top" };
+    static const char *protos[] = { "http", "ftp", "tcp", "udp", "ip", "dns", "odd", "unix", "mailto", "x9", "pop3", "file", "amanda", "top",
+                                    "HTTP", "Ftp", "X9", "abcdefghijklmnopqrstuvwxyz01234", "abcdefghijklmnopqrstuvwxyz012345", "abcdefghijklmnopqrstuvwxyz0123456" };      /* upper case; 31, 32, 33 characters */
     static const int paints[] = { 0x00, 0xFF, 0xA5, 0x5A, 'a' };
+    static const char *portfmt[] = { "%u", "%u", "%u", "%u", "%04u", "%07u", "%05u" };
     int nops = rng_range(r, 1, 20 * sim_tier_scale());
+#define HOSTAL (rng_chance(r, 1, 4) ? "abcxyzABZ019.-" : "abcxyz019.-")
+#define LONGW(lo, hi) (rng_chance(r, 1, 12) ? 31 + (int)rng_below(r, 3) : rng_chance(r, 1, 20) ? 63 : rng_range(r, lo, hi))
     plan_knob(p, "ns", (long)rng_below(r, 256));
     plan_knob(p, "alloc.fill", rng_range(r, 0, 4));
     plan_knob(p, "alloc.realloc", rng_range(r, 0, 2));
     for (int i = 0; i < nops; i++) {
-        char txt[400], w[64];
+        char txt[700], w[80];
         size_t n = 0;
         int wf = rng_chance(r, 4, 5);
         op_t *o;
@@ -473,7 +522,7 @@ static void gen_c14(plan_t *p, rng_t *r)
                 /* the same shape, assembled through the setters instead of parsed from text */
                 char c[7][64]; long mask = 0; size_t m = 0;
                 static const char *empty = "";
-                snprintf(c[0], 64, "%s", hasproto ? protos[rng_below(r, 14)] : empty);
+                snprintf(c[0], 64, "%s", hasproto ? protos[rng_below(r, rng_chance(r, 1, 5) ? 20 : 14)] : empty);
                 gen_word(r, c[1], 1, 6, "abcxyz019"); gen_word(r, c[2], 1, 6, "abc019::"); gen_word(r, c[3], 1, 12, "abcxyz019.-");
                 snprintf(c[4], 64, "%u", rng_below(r, 65536));
                 c[5][0] = '/'; gen_word(r, c[5] + 1, 0, 20, "abc/._-@:"); gen_word(r, c[6], 0, 20, "abc=&?/:@ ");
@@ -483,19 +532,25 @@ static void gen_c14(plan_t *p, rng_t *r)
                 op_str(o, txt, m);
                 continue;
             }
-            if (hasproto) n += (size_t)snprintf(txt + n, sizeof(txt) - n, "%s:", protos[rng_below(r, 14)]);
+            if (hasproto) n += (size_t)snprintf(txt + n, sizeof(txt) - n, "%s:", protos[rng_below(r, rng_chance(r, 1, 5) ? 20 : 14)]);
             if (hashost && (hasproto ? rng_chance(r, 5, 6) : rng_chance(r, 1, 2))) n += (size_t)snprintf(txt + n, sizeof(txt) - n, "//");
-            if (hasuser) { gen_word(r, w, 1, 6, "abcxyz019"); n += (size_t)snprintf(txt + n, sizeof(txt) - n, "%s", w); if (haspw) { gen_word(r, w, 1, 6, "abc019::"); n += (size_t)snprintf(txt + n, sizeof(txt) - n, ":%s", w); } n += (size_t)snprintf(txt + n, sizeof(txt) - n, "@"); }
-            if (hashost) { gen_word(r, w, 1, 12, "abcxyz019.-"); n += (size_t)snprintf(txt + n, sizeof(txt) - n, "%s", w); if (hasport) n += (size_t)snprintf(txt + n, sizeof(txt) - n, ":%u", rng_below(r, 65536)); }
-            if (haspath) { gen_word(r, w, 0, 20, "abc/._-@:"); n += (size_t)snprintf(txt + n, sizeof(txt) - n, "/%s", w); }
+            if (hasuser) { int ul = LONGW(1, 6); gen_word(r, w, ul, ul, rng_chance(r, 1, 4) ? "abcXYZ019" : "abcxyz019"); n += (size_t)snprintf(txt + n, sizeof(txt) - n, "%s", w); if (haspw) { gen_word(r, w, 1, 6, "abc019::"); n += (size_t)snprintf(txt + n, sizeof(txt) - n, ":%s", w); } n += (size_t)snprintf(txt + n, sizeof(txt) - n, "@"); }
+            if (hashost) { int hl = LONGW(1, 12); gen_word(r, w, hl, hl, HOSTAL); n += (size_t)snprintf(txt + n, sizeof(txt) - n, "%s", w);
+                           if (hasport) { n += (size_t)snprintf(txt + n, sizeof(txt) - n, ":"); n += (size_t)snprintf(txt + n, sizeof(txt) - n, portfmt[rng_below(r, 7)], rng_chance(r, 1, 10) ? 1234567 : rng_below(r, 65536)); } }
+            if (haspath) {
+                if (rng_chance(r, 1, 15)) { int pl = rng_range(r, 200, 254); txt[n++] = '/'; txt[n++] = 'p'; for (int q = 1; q < pl; q++) txt[n++] = "abc/._-"[rng_below(r, 7)]; txt[n] = 0; }       /* a long path */
+                else { gen_word(r, w, 0, 20, rng_chance(r, 1, 4) ? "abC/._-@:" : "abc/._-@:"); n += (size_t)snprintf(txt + n, sizeof(txt) - n, "/%s", w); }
+            }
             if (hasquery) { gen_word(r, w, 0, 20, "abc=&?/:@ "); n += (size_t)snprintf(txt + n, sizeof(txt) - n, "?%s", w); }
             txt[n] = 0;
         } else {
-            n = (size_t)rng_range(r, 0, 60);
-            for (size_t j = 0; j < n; j++) txt[j] = rng_chance(r, 1, 3) ? ":/@?."[rng_below(r, 5)] : rng_chance(r, 1, 8) ? (char)(1 + rng_below(r, 255)) : (char)('a' + rng_below(r, 6));
+            size_t pre = 0;
+            if (rng_chance(r, 1, 2)) pre = (size_t)snprintf(txt, sizeof(txt), "%s:", protos[rng_below(r, 14)]);       /* every lookup outcome crossed with arbitrary remainders: "http:", "tcp://", "odd:?q" */
+            n = pre + (size_t)rng_range(r, 0, 60);
+            for (size_t j = pre; j < n; j++) txt[j] = rng_chance(r, 1, 3) ? ":/@?."[rng_below(r, 5)] : rng_chance(r, 1, 8) ? (char)(1 + rng_below(r, 255)) : (char)('a' + rng_below(r, 6));
             txt[n] = 0;
         }
-        o = plan_op(p, 0, "url", 3, (long)paints[rng_below(r, 5)], (long)wf, (long)paints[rng_below(r, 5)]);
+        o = plan_op(p, 0, "url", 4, (long)paints[rng_below(r, 5)], (long)wf, (long)paints[rng_below(r, 5)], (long)rng_chance(r, 1, 4));     /* a3: construct from a string object */
         op_str(o, txt, n);
     }
 }
@@ -539,6 +594,16 @@ static void check_table(const char *when)
     }
 }
 
+/* "frees" means the block really goes back to the allocator (the same serial must not be live afterwards) */
+static uint32_t blk_serial(const void *q) { void *b; size_t sz; int live; uint32_t ser = 0; if (q && sa_lookup(q, &b, &sz, &live, &ser) && live) return ser; return 0; }
+static void must_be_freed(const void *old, uint32_t serial, const char *what)
+{
+    void *b; size_t sz; int live; uint32_t ser = 0;
+    if (!old || !serial) return;
+    if (sa_lookup(old, &b, &sz, &live, &ser) && live && ser == serial)
+        sim_fail("MISMATCH(not-freed)", "%s: the block is still allocated afterwards", what);
+    probe_hit("release_verified");
+}
 static void exec_c15_api(const plan_t *p)
 {
     memset(sh, 0, sizeof(sh));
@@ -569,6 +634,7 @@ static void exec_c15_api(const plan_t *p)
             if (strlen(file) > 20) probe_hit("filename_truncated");
         } else if (!strcmp(k, "realloc")) {
             void *q, *old = sh[s].p;
+            uint32_t old_serial = blk_serial(old);
             size_t keep = sh[s].size < size ? sh[s].size : size;
             if (viamacro) { q = shim_realloc(old, size, &line); file = shim_file(); } else q = spifmem_realloc("v", file, line, old, size);
             if (!old && !size && !q) { probe_hit("realloc_null_zero"); }      /* realloc(NULL, 0): both clauses apply, either outcome is accepted */
@@ -579,6 +645,7 @@ static void exec_c15_api(const plan_t *p)
                 probe_hit("realloc_of_null");
             } else if (size == 0) {               /* realloc to 0 frees */
                 if (q) sim_fail("MISMATCH(realloc-zero)", "realloc(p, 0) returned a pointer");
+                must_be_freed(old, old_serial, "realloc(p, 0)");
                 sh[s].p = NULL; sh[s].size = 0;
                 probe_hit("realloc_to_zero");
             } else {
@@ -596,7 +663,9 @@ static void exec_c15_api(const plan_t *p)
             for (int z = s + 1; z < NPTR; z++) if (sh[z].p && sh[z].tracked) last = 0;
             if (!last) probe_hit("remove_from_middle");
             if (!sh[s].tracked) probe_hit("unknown_pointer_free");
-            if (viamacro) { if (shim_free(sh[s].p)) sim_fail("MISMATCH(free-nulls)", "FREE() did not null the pointer"); } else spifmem_free("v", file, line, sh[s].p);
+            { void *old = sh[s].p; uint32_t old_serial = blk_serial(old);
+              if (viamacro) { if (shim_free(sh[s].p)) sim_fail("MISMATCH(free-nulls)", "FREE() did not null the pointer"); } else spifmem_free("v", file, line, sh[s].p);
+              must_be_freed(old, old_serial, sh[s].tracked ? "free of a tracked block" : "free of a block the tracker does not know"); }
             sh[s].p = NULL; sh[s].size = 0;
         } else continue;
         tr_printf("%s slot%d size=%zu -> %llu", k, s, size, (unsigned long long)sa_offset(sh[s].p));
@@ -606,6 +675,7 @@ static void exec_c15_api(const plan_t *p)
     for (int i = 0; i < NPTR; i++) if (sh[i].p) { if (viamacro) shim_free(sh[i].p); else spifmem_free("v", "end.c", 1, sh[i].p); sh[i].p = NULL; }
     if (libast_debug_level >= 5) check_table("end");
     if (simacc_malloc_rec()->cnt) sim_fail("MISMATCH(table-count)", "tracker still holds %zu records after every block was freed", (size_t)simacc_malloc_rec()->cnt);
+    if (sa_live_count() > 1) sim_fail("LEAK", "%zu blocks are still allocated after every block was freed (the tracker's own table may account for one)", sa_live_count());
 }
 
 void protosim_exec_program(const plan_t *p);
